@@ -300,6 +300,10 @@ func judgeErrored(ec erroredCase, clean []secs2.Item) (key, msg string) {
 		if secs2.Equal(e, e) {
 			return "equal-self", "Equal(e, e) is true for an errored item"
 		}
+		// two distinct trees that share the errored item (and a list holding it) by reference
+		if sh := secs2.L(e); secs2.Equal(secs2.L(e), secs2.L(e)) || secs2.Equal(secs2.L(sh), secs2.L(sh)) || secs2.Equal(secs2.L(secs2.U1(1), sh), secs2.L(secs2.U1(1), sh)) {
+			return "equal-shared", "two distinct lists that hold the same errored item (directly, or inside a shared sub-list) by reference are Equal"
+		}
 		if !ec.Big {
 			if e2 := ec.Build(); secs2.Equal(e, e2) || secs2.Equal(e2, e) {
 				return "equal-errored", "two identically constructed errored items are Equal"
